@@ -23,6 +23,8 @@ type Request struct {
 	WantParse bool `json:"parse,omitempty"`  // also run the parse stage alone (parse.Parse)
 	Slow      bool `json:"slow,omitempty"`   // deliver the source through a one-byte-per-Read reader (LState.Load)
 	Repeat    int  `json:"repeat,omitempty"` // load that many more times: class, message and bytecode must not change
+	Run       bool `json:"run,omitempty"`    // also call the loaded function (10 s deadline) and report what it returns
+	FailAt    int  `json:"failat,omitempty"` // > 0: load through a reader that fails with io.ErrUnexpectedEOF after that many bytes
 	LimitMs   int  `json:"-"`
 }
 
@@ -39,6 +41,10 @@ func childMain() {
 		res := Result{ID: rq.ID}
 		if rq.File {
 			res.Load, res.Msg = loadFileOnce(rq.Src)
+		} else if rq.FailAt > 0 {
+			res.Load, res.Msg = loadFailingReader(rq.Src, rq.FailAt)
+		} else if rq.Run {
+			res.Load, res.Msg, res.RunOut = loadAndRun(rq.Src)
 		} else {
 			res.Load, res.Msg, res.Proto = loadOnceR(rq.Src, rq.WantProto, rq.Slow)
 		}
